@@ -281,6 +281,21 @@ func (w *world) checkGlobals(t, op int, kind string, midOp bool) {
 			continue
 		}
 		globalsDirty = true
+		synced := false
+		for _, sp := range w.sc.SyncPkgs {
+			if strings.HasPrefix(g.Name, sp+".") {
+				synced = true
+			}
+		}
+		if synced {
+			// the owning package uses synchronisation primitives: the write
+			// may be properly guarded. Not a finding by itself; the process
+			// is retired and outputs keep being compared.
+			procGlobBase[i] = h
+			procGlobFlat[i] = fp.Flatten(g.Ptr)
+			w.stats.SyncedGlobalWrites++
+			continue
+		}
 		paths, details := fp.Diff(procGlobFlat[i], fp.Flatten(g.Ptr), 6)
 		for j := range paths {
 			paths[j] = g.Name + paths[j]
@@ -412,6 +427,10 @@ func runScenario(sc *proto.Scenario, nSites int) (res *proto.Result) {
 	}
 
 	sr := &rng{s: simrt.Mix(sc.Sched.Seed, 0xabcdef)}
+	if sc.Sched.Explicit == nil && sc.Sched.SyncPreempt > 0 && sc.Sched.MeanQuantum > 0 {
+		hr := &rng{s: simrt.Mix(sc.Sched.Seed, 0x5157)}
+		simrt.SyncHook = func() bool { return hr.intn(1000) < sc.Sched.SyncPreempt }
+	}
 	explicit := sc.Sched.Explicit
 	useExplicit := explicit != nil
 	ei := 0
@@ -600,6 +619,7 @@ func runScenario(sc *proto.Scenario, nSites int) (res *proto.Result) {
 	w.stats.MapVisits = trim(simrt.MapVisits)
 	w.stats.MapPermuted = trim(simrt.MapPermuted)
 	w.stats.PoolGets, w.stats.PoolDrops = simrt.PoolGets, simrt.PoolDrops
+	w.stats.SyncPoints = simrt.SyncPoints
 	sort.Strings(w.stats.Pairs)
 	w.stats.SwitchHash = hashBytes(switchLog)
 	res.Stats = w.stats
